@@ -44,8 +44,14 @@ func headerToMap(header []byte) (map[string]string, error) {
 	offset := 0
 	m := make(map[string]string)
 	for offset < len(header) {
-		fieldlen := binary.LittleEndian.Uint32(header[offset : offset+4])
-		offset += 4
+		fieldlen, newOffset, err := getUint32(header, offset)
+		if err != nil {
+			return nil, fmt.Errorf("failed to extract field length: %w", err)
+		}
+		offset = newOffset
+		if uint64(fieldlen) > uint64(len(header)-offset) {
+			return nil, fmt.Errorf("field length %d exceeds header", fieldlen)
+		}
 		index := bytes.IndexByte(header[offset:offset+int(fieldlen)], '=')
 		if index < 0 {
 			return nil, fmt.Errorf("missing kv separator")
@@ -72,6 +78,9 @@ func extractHeaderValue(header []byte, key []byte) ([]byte, error) {
 		fieldlen, offset, err = getUint32(header, offset)
 		if err != nil {
 			return nil, fmt.Errorf("failed to extract field length: %w", err)
+		}
+		if uint64(fieldlen) > uint64(len(header)-offset) {
+			return nil, fmt.Errorf("field length %d exceeds header", fieldlen)
 		}
 		field := header[offset : offset+int(fieldlen)]
 		separatorIdx := bytes.Index(field, []byte{'='})
